@@ -435,7 +435,9 @@ class Total(BaseAccumulator):
             leaves = self.leaves()
             for leaf in leaves or [self]:
                 # Each leaf is a separate set of captures
-                args = leaf.build()
+                # (a copy: what is accumulated later, e.g. by a generator
+                # that outlives the call, is not part of this record)
+                args = {k: cap.snapshot() for k, cap in leaf.build().items()}
                 if set(args) == leaf.names:
                     # We only call the function if all of the names that should
                     # have been captured are there. Otherwise we may get some
